@@ -85,10 +85,10 @@ theorem C18_decoded_order (cfg : Cfg) (dict : Lookup) (bs : Bytes) (m : Msg)
 
 /-- the same against the independent reader: if the frame parses as `s`, the AVP list accessor of the decoded message
 lists exactly `s`'s AVPs, in `s`'s (= wire) order -/
-theorem C18_decoded_is_parsed (cfg : Cfg) (dict : Lookup) (bs : Bytes) (m : Msg) (s : SMsg)
+theorem C18_decoded_is_parsed (cfg : Cfg) (hf : cfg.tables.Fit) (dict : Lookup) (bs : Bytes) (m : Msg) (s : SMsg)
     (h : decMsg cfg dict bs = .ok m) (hlen : bs.length = m.length) (hnl : NoLieList m.avps)
-    (hp : Parses dict bs s) : absList m.avps = s.avps := by
-  have := parses_unique dict bs m.abs s (decMsg_parses cfg dict bs m h hlen hnl) hp
+    (hp : Parses cfg.tables dict bs s) : absList m.avps = s.avps := by
+  have := parses_unique cfg.tables hf dict bs m.abs s (decMsg_parses cfg dict bs m h hlen hnl) hp
   rw [← this]; rfl
 
 /-! non-vacuity: a message with a repeated code -/
